@@ -59,13 +59,21 @@ package base58
 //@   assert after copy#1: forall k :: 0 <= k && k < 4 ==> cksum[k] == h2[k]
 
 //@ func base58.CheckEncode
+//@   ensures $calls_Encode == 1 && $calls_checksum == 1 && sameobj(result, $ret_Encode#1) && len(result) == len($ret_Encode#1) && result.off == $ret_Encode#1.off
 //@   modifies nothing
 //@   assert after checksum#1: len($arg0) == 1 + len(input) && $arg0[0] == version && forall k :: 0 <= k && k < len(input) ==> $arg0[1 + k] == input[k]
 //@   assert after Encode#1: len($arg0) == 5 + len(input) && $arg0[0] == version && (forall k :: 0 <= k && k < len(input) ==> $arg0[1 + k] == input[k]) && (forall k :: 0 <= k && k < 4 ==> $arg0[1 + len(input) + k] == cksum[k])
 
 //@ func base58.CheckDecode
+//@   ensures $calls_Decode == 1 && $calls_checksum <= 1
 //@   ensures err == nil ==> freshornil(result)
+//@   ensures len($ret_Decode#1) < 5 ==> err != nil
+//@   ensures err == nil ==> $calls_checksum == 1 && len(result) == len($ret_Decode#1) - 5 && version == $ret_Decode#1[0]
+//@   ensures err == nil ==> forall k :: 0 <= k && k < len(result) ==> result[k] == $ret_Decode#1[1 + k]
+//@   ensures err == nil ==> forall k :: 0 <= k && k < 4 ==> $ret_checksum#1[k] == $ret_Decode#1[len($ret_Decode#1) - 4 + k]
 //@   modifies nothing
+//@   assert after Decode#1: sameobj($arg0, input) && len($arg0) == len(input) && $arg0.off == input.off
+//@   assert after checksum#1: sameobj($arg0, $ret_Decode#1) && $arg0.off == $ret_Decode#1.off && len($arg0) == len($ret_Decode#1) - 4
 
 //@ lemmafunc base58.lemmaDecodeEncode
 //@   uses b58_rest_nonneg
